@@ -1,7 +1,7 @@
 """comm/protocol.py: gate, validators, dispatch (C02 C03)."""
 from .common import *
 from spec.requests import *       # noqa
-from .ledger_protocol import PINOBJ, PERR, PINT
+from .ledger_protocol import PINOBJ, PERR, PINT, proto_invariant
 
 V2 = NEW("ledger.protocol:HSM2ProtocolLedger", PINOBJ, DONGLE, _comm_issue=BOOL_)
 BASE = ["C02", "C03"]
@@ -156,8 +156,7 @@ class InternalHandleRequest(Contract):
                       "HSM2Protocol._validate_signer_heartbeat", "HSM2Protocol._validate_ui_heartbeat",
                       "HSM2Protocol._validate_key_id", "HSM2Protocol._validate_auth", "HSM2Protocol._validate_message")
 
-    def pin_invariant(self): return len(self.pin._pin) == 8 and not self.pin._changing
-    requires = [pin_invariant]
+    requires = [proto_invariant]
 
     # ---- C03: one JSON object with an integer error code
     @only("C03")
